@@ -79,12 +79,24 @@ impl GC {
         #[cfg(feature = "verif")]
         crate::verif::gc_run_begin(self as *const _ as usize, &self.objects, roots);
 
+        // One mark bit per managed object
         self.mark_bitmap.clear();
+        self.mark_bitmap.resize(self.objects.len(), false);
+
+        // Where each managed object sits in the objects vector, by address
+        let mut index: Vec<(usize, usize)> = self
+            .objects
+            .iter()
+            .enumerate()
+            .map(|(i, o)| (o.as_ptr() as usize, i))
+            .collect();
+        index.sort_unstable();
 
         // Mark all reachable objects
+        let mut foreign = Vec::new();
         for root in roots.iter() {
             for obj in root.iter() {
-                self.mark(obj);
+                self.mark(obj, &index, &mut foreign);
             }
         }
 
@@ -105,50 +117,43 @@ impl GC {
             object.free();
         }
 
-        self.mark_bitmap.truncate(self.objects.len());
+        // The marks belonged to the collection that just ended
+        self.mark_bitmap.clear();
     }
 
-    /// Marks the given object as reachable
-    #[inline(always)]
-    fn mark(&mut self, o: &Object) {
+    /// Marks the given object (and everything it refers to) as reachable
+    fn mark(&mut self, o: &Object, index: &[(usize, usize)], foreign: &mut Vec<usize>) {
         if !o.is_heap_allocated() {
             return;
         }
 
-        let index = unsafe {
-            let object_ptr: *mut Object = o.as_ptr().cast();
-            let universe_ptr: *const Object = self.objects.as_ptr().cast();
-            object_ptr.offset_from(universe_ptr) as usize
-        };
-        // The bitmap accesses below are unchecked: under the verification hooks an index
-        // outside the managed vector is recorded and skipped instead of being written through.
-        #[cfg(feature = "verif")]
-        if index >= self.objects.len() {
-            crate::verif::gc_mark_index(index, self.objects.len());
-            return;
+        let addr = o.as_ptr() as usize;
+        match index.binary_search_by_key(&addr, |e| e.0) {
+            Ok(pos) => {
+                // No need to mark recursively if this one was already marked
+                // (e.g. because the same object was found in multiple places
+                // such as the stack and the result of a function call).
+                let i = index[pos].1;
+                if self.mark_bitmap[i] {
+                    return;
+                }
+                self.mark_bitmap.set(i, true);
+            }
+            Err(_) => {
+                // Not managed by this collector (e.g. a value that outlived an earlier
+                // run on the same machine): it is not ours to release, but what it
+                // refers to may be.
+                if o.tag() != Type::Array || foreign.contains(&addr) {
+                    return;
+                }
+                foreign.push(addr);
+            }
         }
-        debug_assert!(index < self.objects.len());
 
         if o.tag() == Type::Array {
-            // Safety: we know the size of mark_bitmap.
-            unsafe {
-                // No need to mark recursively on arrays if this one was
-                // already marked (e.g. because the same object was found
-                // in multiple places such as the stack and the result of
-                // a function call).
-                if !self.mark_bitmap.get_unchecked(index) {
-                    self.mark_bitmap.set_unchecked(index, true);
-
-                    // Safety: we already checked the type.
-                    for v in o.as_vec_unchecked() {
-                        self.mark(v);
-                    }
-                }
-            }
-        } else {
-            unsafe {
-                // Safety: we know the size of mark_bitmap.
-                self.mark_bitmap.set_unchecked(index, true);
+            // Safety: we already checked the type.
+            for v in unsafe { o.as_vec_unchecked() } {
+                self.mark(v, index, foreign);
             }
         }
     }
